@@ -74,6 +74,7 @@ func vInit() *vWorld {
 		verifYield(proc + ":" + label)
 	}
 	VerifStateHook = nil
+	vLineServed = nil
 	return vW
 }
 
@@ -244,10 +245,20 @@ type vPipe struct {
 }
 
 func (p *vPipe) Close() error { return nil }
+// vLineServed is told about every stdout line handed to the supervisor (ground truth)
+var vLineServed func(name, line string)
+
+func (p *vPipe) serve(line string) {
+	if vLineServed != nil {
+		vLineServed(p.cmd.name, line)
+	}
+}
+
 func (p *vPipe) ReadString(d byte) (string, error) {
 	if p.pos < len(p.lines) {
 		s := p.lines[p.pos]
 		p.pos++
+		p.serve(s)
 		return s + "\n", nil
 	}
 	<-p.cmd.exitCh
@@ -257,6 +268,7 @@ func (p *vPipe) Read(b []byte) (int, error) {
 	for len(p.buf) == 0 {
 		if p.pos < len(p.lines) {
 			p.buf = []byte(p.lines[p.pos] + "\n")
+			p.serve(p.lines[p.pos])
 			p.pos++
 			break
 		}
